@@ -45,7 +45,7 @@ ASSUMPTIONS = [
     'a failure that disappears with evaluable.compile(_optimize=False) is attributed to the code generator (mechanism C07-optimized-mode-only, scope of C02)',
     'accepted nutils/NumPy differences are listed in coverage.accepted_differences',
 ]
-BUDGET_S = {'quick': 105, 'thorough': 1500}
+BUDGET_S = {'quick': 95, 'thorough': 1500}
 GRACE_S = 60
 
 SYS_PER = {'quick': 2, 'thorough': 40}          # targeted cases per (operation, environment)
